@@ -38,7 +38,9 @@ ASSUMPTIONS = [
 KEYS = ["redirect", "redirect_to", "target", "redir", "next", "link", "orig", "goto", "url", "l", "u", "q"]
 LOOKALIKES = ["xurl", "ur", "urls", "redirection", "nexts", "lu", "uq", "href"]
 KEY_RE = re.compile(r"(?:^|[?&])(%s)=([^&]+)" % "|".join(sorted(KEYS, key=len, reverse=True)), re.I)
-CACHE_RE = re.compile(r"(?:\.ampproject\.org/[cv]/(?:s/)?|bc\.marfeelcache\.com/amp/|bc\.marfeel\.com/)", re.I)
+CACHE_RE = re.compile(r"(?:\.ampproject\.org(?::\d*)?/[cv]/(?:s/)?|bc\.marfeelcache\.com(?::\d*)?/amp/|bc\.marfeel\.com(?::\d*)?/)", re.I)   # the cache host, with any port
+AMP_ENTITY = re.compile(r"&(?:a|%[46]1)(?:m|%[46]d)(?:p|%[57]0)(?:%3B|;)", re.I)
+_PROTO = re.compile(r"^[a-zA-Z]{0,64}:?//")
 
 
 class _Timeout(Exception):
@@ -77,17 +79,21 @@ def allowed_single_step(x):
         tail = x[m.end():]
         if tail:
             out.add("https://" + tail)
-    # overlapping occurrences: scan every position
+    # overlapping occurrences: scan every position; '&amp;' (in any escape spelling) introduces a parameter like '&'
+    xq = AMP_ENTITY.sub("&", x)
     pos = 0
     while True:
-        m = KEY_RE.search(x, pos)
+        m = KEY_RE.search(xq, pos)
         if m is None:
             break
         val = unquote(m.group(2))
         out.add(val)                        # absolute target
         if val.startswith("/"):
             try:
-                out.add(urljoin(x, val))    # relative target: joined to the input, nothing else
+                if _PROTO.match(re.sub(r"[\x00-\x1f\x7f-\x9f]", "", x).strip()):   # protocol of the cleaned input (control characters, surrounding whitespace)
+                    out.add(urljoin(x, val))    # relative target: joined to the input, nothing else
+                else:
+                    out.add(urljoin("http://" + x, val)[7:])   # an input without protocol keeps its host (and stays without protocol)
             except ValueError:
                 pass
         else:
